@@ -188,6 +188,14 @@ def run(ctx):
             what = re.sub(r"\d+", "N", str(m.get("what", "")))      # stable signature: numbers stripped
             ctx.violation("c14:%s:%s:%s" % (label, m.get("path", m.get("form")), what[:48]), m,
                           what="pruned answer hides a document / differs from the reference over all documents")
+    # narrowing a fraction's scan to the ID positions of the time range, for posting lists that span several 64 Ki LID
+    # blocks (IteratorAsc / IteratorDesc.narrowLIDsRange): IndexLayout.tla's real-size shapes (C03's machinery) carry
+    # one- and two-sided time cuts at every chunk border +-1 with answers computed by the specification
+    from checks import c03
+    sdrv = vlib.build_driver("shapes")
+    _, ssumm = c03.replay_shapes(ctx, sdrv, "IndexLayout_real_small.cfg" if quick else "IndexLayout_real.cfg", "c14:lid-range", only_search=True)
+    for k in tot:
+        tot[k] += ssumm[k]
     st = {"stores": 0, "fractions": 0, "with_distribution": 0, "with_docs_older_than_24h": 0, "with_future_docs": 0,
           "max_docs_in_fraction": 0, "fractions_over_one_id_block": 0, "queries": 0, "queries_nonempty": 0,
           "pairs_border_pass": 0, "pairs_rejected_by_borders": 0, "pairs_rejected_by_occupancy_map": 0}
